@@ -168,6 +168,19 @@ static void tie_proj(const opus_int16 *m, const float *v, int K)
       free(s);
    }
    printf("O %s i16=%d\n", exact == *out ? "plain" : "saturated", *out);
+   /* the float path on the same row and samples (finite samples only; the model's fmul/fadd do not cover inf/NaN) */
+   { int fin = 1; float *fo = (float *)malloc(4); uint32_t u;
+     for (k = 0; k < K; k++) if (!(fabsf(v[k]) < 1e30f)) fin = 0;
+     if (fin) {
+        printf("I pcm projf ");
+        for (k = 0; k < K; k++) printf("%s%d", k ? "," : "", m[k]);
+        printf(" "); vhex(stdout, (const unsigned char *)v, 4L * K); printf("\n"); fflush(stdout);
+        *fo = 0;
+        for (k = 0; k < K; k++) { float *s = (float *)vexact((const unsigned char *)&v[k], 4); mapping_matrix_multiply_channel_out_float(mat, s, k, 1, fo, 1, 1); free(s); }
+        u = f2u(*fo);
+        printf("O %s f=%u\n", (u & 0x7fffffffu) == 0 ? "zero" : ((u >> 23) & 255) == 255 ? "nonfinite" : "finite", u);
+     }
+     free(fo); }
    free(mat); free(out);
 }
 
